@@ -9,7 +9,8 @@
      features.go    negotiateFeatures     -> negotiate_features, init_loop
                                              (initiator selection loop), recv_loop
                                              (receiver selection loop), negotiate_one
-                    readStreamFeatures    -> read_children
+                    readStreamFeatures    -> read_children (supported children are cached whether
+                                             or not their prerequisites hold yet)
                     writeStreamFeatures   -> list_loop / write_features
      starttls.go    StartTLS.Negotiate    -> starttls_negotiate
 
@@ -91,6 +92,13 @@ Fixpoint cache_get (s : bytes) (c : cache) : option centry :=
 Record outcome := mkO { o_mask : N; o_restart : bool; o_err : bool }.
 Definition default_outcome := mkO 0%N false false.
 
+(* s.state &^= Ready *)
+Definition clear_ready (b : N) : N := N.ldiff b st_Ready.
+
+(* the bits of a Negotiate call's mask that negotiateFeatures applies at once
+   (`s.state |= mask &^ Ready`); Ready itself is deferred, see after_pick *)
+Definition eff_mask (o : outcome) : N := clear_ready (o_mask o).
+
 (* ------------------------------------------------------------------ peer items *)
 
 Inductive hclass := HGood | HBad.   (* a stream header Expect + the address checks accept / reject *)
@@ -160,38 +168,42 @@ Record mstate := mkM {
   m_hs : bool;                  (* its handshake has not run yet *)
   m_outs : list outcome;        (* scripted outcomes of abstract Negotiate calls *)
   m_choices : list bytes;       (* observed map-iteration choices (name spaces) *)
-  m_tr : list event             (* events so far, most recent first *) }.
+  m_tr : list event;            (* events so far, most recent first *)
+  m_rdy : bool                  (* negotiateFeatures' `ready`: a feature of the current list reported Ready *) }.
 
 Definition emit (e : event) (m : mstate) : mstate :=
   mkM (m_bits m) (m_negd m) (m_cache m) (m_total m) (m_lreq m) (m_in m) (m_tlsin m) (m_tls m) (m_hs m)
-      (m_outs m) (m_choices m) (e :: m_tr m).
+      (m_outs m) (m_choices m) (e :: m_tr m) (m_rdy m).
 Definition set_bits (b : N) (m : mstate) : mstate :=
   mkM b (m_negd m) (m_cache m) (m_total m) (m_lreq m) (m_in m) (m_tlsin m) (m_tls m) (m_hs m)
-      (m_outs m) (m_choices m) (m_tr m).
+      (m_outs m) (m_choices m) (m_tr m) (m_rdy m).
 Definition set_negd (l : list bytes) (m : mstate) : mstate :=
   mkM (m_bits m) l (m_cache m) (m_total m) (m_lreq m) (m_in m) (m_tlsin m) (m_tls m) (m_hs m)
-      (m_outs m) (m_choices m) (m_tr m).
+      (m_outs m) (m_choices m) (m_tr m) (m_rdy m).
 Definition set_list (c : cache) (t : nat) (r : bool) (m : mstate) : mstate :=
   mkM (m_bits m) (m_negd m) c t r (m_in m) (m_tlsin m) (m_tls m) (m_hs m)
-      (m_outs m) (m_choices m) (m_tr m).
+      (m_outs m) (m_choices m) (m_tr m) (m_rdy m).
 Definition set_in (i : list pitem) (m : mstate) : mstate :=
   mkM (m_bits m) (m_negd m) (m_cache m) (m_total m) (m_lreq m) i (m_tlsin m) (m_tls m) (m_hs m)
-      (m_outs m) (m_choices m) (m_tr m).
+      (m_outs m) (m_choices m) (m_tr m) (m_rdy m).
 Definition set_outs (o : list outcome) (m : mstate) : mstate :=
   mkM (m_bits m) (m_negd m) (m_cache m) (m_total m) (m_lreq m) (m_in m) (m_tlsin m) (m_tls m) (m_hs m)
-      o (m_choices m) (m_tr m).
+      o (m_choices m) (m_tr m) (m_rdy m).
 Definition set_choices (c : list bytes) (m : mstate) : mstate :=
   mkM (m_bits m) (m_negd m) (m_cache m) (m_total m) (m_lreq m) (m_in m) (m_tlsin m) (m_tls m) (m_hs m)
-      (m_outs m) c (m_tr m).
+      (m_outs m) c (m_tr m) (m_rdy m).
 Definition set_hs (h : bool) (m : mstate) : mstate :=
   mkM (m_bits m) (m_negd m) (m_cache m) (m_total m) (m_lreq m) (m_in m) (m_tlsin m) (m_tls m) h
-      (m_outs m) (m_choices m) (m_tr m).
+      (m_outs m) (m_choices m) (m_tr m) (m_rdy m).
+Definition set_rdy (b : bool) (m : mstate) : mstate :=
+  mkM (m_bits m) (m_negd m) (m_cache m) (m_total m) (m_lreq m) (m_in m) (m_tlsin m) (m_tls m) (m_hs m)
+      (m_outs m) (m_choices m) (m_tr m) b.
 (* tls.Client / tls.Server around the connection: whatever clear text the peer
    had already sent is gone with the old decoder (session.go, rw != nil
    branch); from now on input comes from the TLS-layer script *)
 Definition switch_layer (m : mstate) : mstate :=
   mkM (m_bits m) (m_negd m) (m_cache m) (m_total m) (m_lreq m) (m_tlsin m) [] true true
-      (m_outs m) (m_choices m) (m_tr m).
+      (m_outs m) (m_choices m) (m_tr m) (m_rdy m).
 
 Inductive eclass :=
 | EPolicy     (* stream.PolicyViolation, raised locally *)
@@ -234,22 +246,25 @@ Definition send_header (c : config) (m : mstate) : mstate * res unit :=
 
 (* ------------------------------------------------------------------ readStreamFeatures *)
 
-(* the effect of one supported, successfully parsed child on the cache *)
-Definition cache_step (st : N) (f : feature) (req : bool) (ca : cache) : cache :=
-  if eligible f st then cache_put (req, f) ca else ca.
+(* the effect of one supported, successfully parsed child on the cache: it is
+   remembered whether or not its prerequisites hold right now (the selection
+   loop tests them); [st] is kept for the count of children that are allowed *)
+Definition cache_step (st : N) (f : feature) (req : bool) (ca : cache) : cache := cache_put (req, f) ca.
 
+(* returns cache, total, list.req, list.allowed *)
 Fixpoint read_children (fs : list feature) (st : N) (cs : list fchild) (m : mstate)
-         (ca : cache) (tot : nat) (lr : bool) : mstate * res (cache * nat * bool) :=
+         (ca : cache) (tot : nat) (lr : bool) (al : nat) : mstate * res (cache * nat * bool * nat) :=
   match cs with
-  | [] => (m, Good (ca, tot, lr))
+  | [] => (m, Good (ca, tot, lr, al))
   | FCText :: _ => (m, Bad EOther)                     (* stream.RestrictedXML *)
   | FC sp lo req perr :: rest =>
       match get_feature (sp, lo) fs with
       | Some f =>
           let m1 := emit (EParse f) m in
           if perr then (m1, Bad EFeature)
-          else read_children fs st rest m1 (cache_step st f req ca) (S tot) (lr || req)  (* sf.req before the mask test *)
-      | None => read_children fs st rest m ca (S tot) lr
+          else read_children fs st rest m1 (cache_step st f req ca) (S tot) (lr || req)
+                             (if eligible f st then S al else al)
+      | None => read_children fs st rest m ca (S tot) lr al
       end
   end.
 
@@ -317,18 +332,23 @@ Definition feature_err (f : feature) : eclass :=
   match f_kind f with KAbstract => EFeature | KStartTLS => EOther end.
 
 (* the part of the selection loops after a feature was picked:
-     mask, rw, err = Negotiate(...); if err == nil { s.state |= mask }
-     s.negotiated[space] = {}; if rw != nil || req || err != nil { break }
-   and, after the loop, `if !list.req && rw == nil { mask |= Ready }; return mask, rw, err`.
+     mask, rw, err = Negotiate(...)
+     if err == nil { ready = ready || mask&Ready == Ready; s.state |= mask &^ Ready }
+     s.negotiated[space] = {}; if err != nil || rw != nil || req { break }
+   and, after the loop,
+     mask &^= Ready; if rw == nil && (ready || !list.req) { mask |= Ready }; return mask, rw, err.
    Returns Good None when the loop goes on. *)
 Definition after_pick (c : config) (m : mstate) (req : bool) (f : feature)
   : mstate * res (option (N * bool)) :=
   let '(m1, o) := negotiate_one c m f in
-  let m2 := if o_err o then m1 else set_bits (N.lor (m_bits m1) (o_mask o)) m1 in
+  let m2 := if o_err o then m1
+            else set_rdy (m_rdy m1 || has (o_mask o) st_Ready) (set_bits (N.lor (m_bits m1) (eff_mask o)) m1) in
   let m3 := set_negd (f_space f :: m_negd m2) m2 in
   if o_err o then (m3, Bad (feature_err f))
   else if o_restart o || req then
-    (m3, Good (Some (N.lor (o_mask o) (if m_lreq m3 || o_restart o then 0%N else st_Ready), o_restart o)))
+    (m3, Good (Some (N.lor (eff_mask o)
+                           (if negb (o_restart o) && (m_rdy m3 || negb (m_lreq m3)) then st_Ready else 0%N),
+                     o_restart o)))
   else (m3, Good None).
 
 (* ------------------------------------------------------------------ initiator: selection *)
@@ -459,28 +479,25 @@ Definition features_of (r : option pitem) : option (list fchild) :=
 
 (* after the list was read: the forced-STARTTLS rule, the `total == 0` and
    `len(cache) == 0` exits, then the selection loop *)
-Definition after_read (c : config) (m : mstate) (first : bool) : mstate * res (N * bool) :=
+Definition after_read (c : config) (m : mstate) (first : bool) (al : nat) : mstate * res (N * bool) :=
   let ca := m_cache m in
   let advertised := match cache_get ns_StartTLS ca with Some _ => true | None => false end in
   let force := first && negb advertised && negb (has (m_bits m) st_Secure) in
+  let normal :=
+    match m_total m, al with
+    | O, _ => (m, Good (st_Ready, false))
+    | _, O => (m, Bad EOther)      (* "features advertised out of order": none of them can be negotiated *)
+    | _, _ => init_loop (S (length ca)) c m None
+    end in
   match (if force then find_space ns_StartTLS (c_feats c) else None) with
   | Some f =>
       if f_neg f && eligible f (m_bits m) then init_loop 1 c m (Some f)   (* startTLS.Negotiate != nil && startTLS.allowed(s.state) *)
-      else
-        match m_total m, ca with
-        | O, _ => (m, Good (st_Ready, false))
-        | _, [] => (m, Bad EOther)
-        | _, _ => init_loop (S (length ca)) c m None
-        end
-  | None =>
-      match m_total m, ca with
-      | O, _ => (m, Good (st_Ready, false))
-      | _, [] => (m, Bad EOther)      (* "features advertised out of order" *)
-      | _, _ => init_loop (S (length ca)) c m None
-      end
+      else normal
+  | None => normal
   end.
 
-Definition negotiate_features (c : config) (m : mstate) (first : bool) : mstate * res (N * bool) :=
+Definition negotiate_features (c : config) (m0 : mstate) (first : bool) : mstate * res (N * bool) :=
+  let m := set_rdy false m0 in      (* var ready bool *)
   if server m then
     match write_features c m with
     | (m1, Good _) => recv_loop (S (length (m_in m1))) c m1
@@ -491,8 +508,8 @@ Definition negotiate_features (c : config) (m : mstate) (first : bool) : mstate 
     let '(m1, r) := read RPFeatures m in
     match features_of r with
     | Some cs =>
-        match read_children (c_feats c) (m_bits m1) cs m1 [] 0 false with
-        | (m2, Good (ca, tot, lr)) => after_read c (set_list ca tot lr m2) first
+        match read_children (c_feats c) (m_bits m1) cs m1 [] 0 false 0 with
+        | (m2, Good (ca, tot, lr, al)) => after_read c (set_list ca tot lr m2) first al
         | (m2, Bad e) => (m2, Bad e)
         | (m2, Stuck) => (m2, Stuck)
         end
@@ -549,13 +566,13 @@ Fixpoint session_loop (fuel : nat) (c : config) (m : mstate) (ns : nstate) (iste
             (* a feature that restarts the stream returns a connection that is not a teeConn *)
             let m2 := if restart then set_negd [] m1 else m1 in
             session_loop k c (set_bits (N.lor (m_bits m2) mask) m2) ns1 (if restart then false else istee)
-        | (m1, Bad e) => mkR (RErr e) (m_bits m1) m1
+        | (m1, Bad e) => mkR (RErr e) (clear_ready (m_bits m1)) m1   (* a session returned with an error is never marked ready *)
         | (m1, Stuck) => mkR RStuck (m_bits m1) m1
         end
   end.
 
 Definition init_state (bits : N) (clear tls : list pitem) (outs : list outcome) (choices : list bytes) : mstate :=
-  mkM bits [] [] 0 false clear tls false false outs choices [].
+  mkM bits [] [] 0 false clear tls false false outs choices [] false.
 
 Definition fuel_for (clear tls : list pitem) : nat := 2 * (length clear + length tls) + 4.
 
